@@ -73,6 +73,10 @@ def loop_guard(F, r, f, loop_field, effect_pred, tag, code_param):
         return
     lp = loops[0]
     s = Sym(f, copies=True)
+    # the loop is not optional: every way from the entry to a return goes through it (an early return before it
+    # skips the effects of every element)
+    skipping = f.path_avoiding({lp.next_block})
+    r.ob("guard:%s:always-reached" % tag, skipping is None, f.loc(lp.line), "every path to a return passes the loop over self.%s" % loop_field if skipping is None else "a path from the entry to a return avoids the loop over self.%s (blocks %s)" % (loop_field, skipping[:8]))
     rows = 0
     bad = []
     for p in lp.iteration_paths(s):
@@ -374,7 +378,22 @@ def r05_3(ctx):
                                 and mentions(e[2][1], lambda x: x == ("field", ("param", 2), fld, "action::Action")) and not mentions(e[2][1], lambda x: x[0] == "call" and x[1].rsplit("::", 1)[1] in ("rev", "filter", "skip", "take", "step_by")):
                             ok = True
             r.ob("merge:append:%s" % fld, ok, f.site, "other.%s is appended to self.%s in order" % (fld, fld))
-    ctx.run_rule("R05.3", "merge tables (status code and log override agree; lists appended)", body, floor=6)
+            # ... and nothing already collected is taken out or rewritten: the lists of `self` only grow
+            shrink = set()
+            for b in f.all_bodies():
+                for bi, t, cal in b.calls():
+                    if cal is None or cal.local or cal.name in ("push", "insert", "extend", "append", "extend_from_slice", "len", "is_empty", "iter", "into_iter", "clone", "deref", "as_slice", "contains", "reserve", "get", "last", "first"):
+                        continue
+                    if not t["args"]:
+                        continue
+                    pvb = Prov(b, copies=True)
+                    recv = pvb.operand(t["args"][0])
+                    if b is not f:
+                        recv = resolve_captures(recv, b, copies=True)
+                    if recv == ("field", ("param", 1), fld, "action::Action") or (recv[0] == "field" and recv[2] == fld and mentions(recv, lambda x: x == ("param", 1))):
+                        shrink.add(cal.name)
+            r.ob("merge:only-grows:%s" % fld, not shrink, f.site, "self.%s is only appended to (other operations on it: %s)" % (fld, sorted(shrink)))
+    ctx.run_rule("R05.3", "merge tables (status code and log override agree; lists appended)", body, floor=10)
 
 
 def r05_4(ctx):
